@@ -131,6 +131,52 @@ def runtime_tables():
     return list(keyword.kwlist), reserved
 
 
+def xml_names():
+    """tag / attribute names the from_et parsers read (string literals of find / findtext / iterfind /
+    findall / get / attrib[...]) and the names which occur in the jinja templates of the writer"""
+    import glob
+    import json
+    import re
+    pat = re.compile(r"[A-Z][A-Z0-9-]*(/[A-Z][A-Z0-9-]*)*")
+    reads = set()
+    files = sorted(glob.glob(os.path.join(REPO, "odxtools", "**", "*.py"), recursive=True))
+    if len(files) < 50:
+        raise TranslateError("odxtools sources not found")
+    for p in files:
+        rel = os.path.relpath(p, REPO)
+        if rel.startswith(os.path.join("odxtools", "cli")):
+            continue
+        tree = _parse(rel)
+        for n in ast.walk(tree):
+            if (isinstance(n, ast.Call) and isinstance(n.func, ast.Attribute) and
+                    n.func.attr in ("find", "findtext", "iterfind", "findall", "get") and n.args and
+                    isinstance(n.args[0], ast.Constant) and isinstance(n.args[0].value, str)):
+                v = n.args[0].value
+                if pat.fullmatch(v):
+                    reads.update(v.split("/"))
+            if (isinstance(n, ast.Subscript) and isinstance(n.value, ast.Attribute) and n.value.attr == "attrib" and
+                    isinstance(n.slice, ast.Constant) and isinstance(n.slice.value, str) and pat.fullmatch(n.slice.value)):
+                reads.add(n.slice.value)
+    writes = set()
+    tfiles = sorted(glob.glob(os.path.join(REPO, "odxtools", "templates", "**", "*.jinja2"), recursive=True))
+    if len(tfiles) < 20:
+        raise TranslateError("templates not found")
+    for p in tfiles:
+        with open(p) as f:
+            t = f.read()
+        t = re.sub(r"\{#.*?#\}", "", t, flags=re.S)      # jinja comments emit nothing
+        writes.update(re.findall(r"</?([A-Z][A-Z0-9-]*)", t))
+        writes.update(re.findall(r"\"([A-Z][A-Z0-9-]*)\"", t))
+        writes.update(re.findall(r"\s([A-Z][A-Z0-9-]*)=", t))
+    kf = os.path.join(os.path.dirname(HERE), "known_findings.json")
+    gaps = set()
+    with open(kf) as f:
+        for e in json.load(f).get("findings", []):
+            if e.get("property") == "C11":
+                gaps.update(e.get("xml_names", []))
+    return sorted(reads), sorted(writes), sorted(gaps)
+
+
 def generate():
     parts = []
     parts.append("(* GENERATED by harness/translate.py from /repo -- do not edit *)\n"
@@ -151,6 +197,10 @@ def generate():
     kw, reserved = runtime_tables()
     parts.append("Definition keywords : list (list Z) :=\n  " + coq_names(kw) + ".")
     parts.append("Definition reserved : list (list Z) :=\n  " + coq_names(reserved) + ".")
+    reads, writes, gaps = xml_names()
+    parts.append("Definition xml_reads : list (list Z) :=\n  " + coq_names(reads) + ".")
+    parts.append("Definition xml_writes : list (list Z) :=\n  " + coq_names(writes) + ".")
+    parts.append("Definition xml_known_gaps : list (list Z) :=\n  " + (coq_names(gaps) if gaps else "[]") + ".")
     return "\n".join(parts) + "\n"
 
 
